@@ -20,6 +20,7 @@ def stmt(act):
     if a == "DefineFromVar": return f"{til}{n} := {m}"
     if a == "Assign": return f"{n} = {lit(act['v'])}"
     if a == "AssignFromVar": return f"{n} = {m}"
+    if a == "AssignFromPart": return {1: f"{n} = {m}.x", 2: f"{n} = {m}.1", 3: f"{n} = [{m}]", 4: f"{n} = {m}[1]"}[act["i"]]
     if a == "IndexAssign": return f"{n}[{act['i']}] = 9"
     if a == "OpAssign": return f"{n} += 1"
     if a == "OpAssignVar": return f"{n} {'+-*'[act['i'] - 1]}= {m}"
